@@ -185,7 +185,7 @@ def _work_inputs(args):
             acc.aborted = True
             break
     # determinism self-test: the same case must give the same observation twice
-    for idx, case, res in redo:
+    for idx, case, res in (redo[:3] if acc.aborted else redo):
         res2 = _safe_check(part, case)
         if (res[1], [v["kind"] for v in res[3]]) != (res2[1], [v["kind"] for v in res2[3]]):
             acc.nondet.append((idx, repr(case)[:300]))
